@@ -198,7 +198,7 @@ func (d *Document) SetPageSettings(settings *PageSettings) error {
 			LinePitch: strconv.Itoa(settings.DocGridLinePitch),
 		}
 
-		if settings.DocGridCharSpace > 0 {
+		if settings.DocGridCharSpace != 0 {
 			sectPr.DocGrid.CharSpace = strconv.Itoa(settings.DocGridCharSpace)
 		}
 	}
